@@ -43,6 +43,7 @@ type probe struct {
 	multi     []*multiBind // several binds in this request (multibind.go); the fields above except the mode are unused then
 	freshEach bool         // multi: every bind goes through c.Bind() again
 	viaMW     bool         // multi: a middleware switched automatic handling on
+	hdrs      *presetHdrs  // headers set on the client / the request besides the value (nil = none)
 	pre       string       // what the handler does before the judged bind: "" | body-first | multipartform-first
 
 	// results
@@ -264,6 +265,7 @@ func (r *rig) roundTrip(p *probe) *outcome {
 	val := p.want.Interface()
 	var resp *client.Response
 	var err error
+	r.presetBefore(req, p)
 	if p.send != nil && p.send.mode != sendStruct && p.src.isText() {
 		resp, err = r.sendPieces(req, p)
 		if err != nil {
@@ -277,9 +279,11 @@ func (r *rig) roundTrip(p *probe) *outcome {
 	}
 	switch p.src {
 	case sQuery:
-		resp, err = req.SetParamsWithStruct(val).Get(rigURL)
+		req.SetParamsWithStruct(val)
+		resp, err = r.fire(req, p, "Get")
 	case sForm:
-		resp, err = req.SetFormDataWithStruct(val).Post(rigURL)
+		req.SetFormDataWithStruct(val)
+		resp, err = r.fire(req, p, "Post")
 	case sMultipart:
 		if p.send != nil && p.send.fileFirst {
 			r.attachFiles(req, p.send)
@@ -288,7 +292,7 @@ func (r *rig) roundTrip(p *probe) *outcome {
 			req.SetFormDataWithStruct(val)
 			r.attachFiles(req, p.send)
 		}
-		resp, err = req.Post(rigURL)
+		resp, err = r.fire(req, p, "Post")
 	case sHeader:
 		for i := range p.typ.Fields {
 			f := &p.typ.Fields[i]
@@ -301,15 +305,19 @@ func (r *rig) roundTrip(p *probe) *outcome {
 				req.AddHeader(f.wire("header"), formatScalar(f.K, fv))
 			}
 		}
-		resp, err = req.Get(rigURL)
+		resp, err = r.fire(req, p, "Get")
 	case sCookie:
-		resp, err = req.SetCookiesWithStruct(val).Get(rigURL)
+		req.SetCookiesWithStruct(val)
+		resp, err = r.fire(req, p, "Get")
 	case sJSON:
-		resp, err = req.SetJSON(val).Post(rigURL)
+		req.SetJSON(val)
+		resp, err = r.fire(req, p, "Post")
 	case sXML:
-		resp, err = req.SetXML(val).Post(rigURL)
+		req.SetXML(val)
+		resp, err = r.fire(req, p, "Post")
 	case sCBOR:
-		resp, err = req.SetCBOR(val).Post(rigURL)
+		req.SetCBOR(val)
+		resp, err = r.fire(req, p, "Post")
 	}
 	if err != nil {
 		o.sendErr = err.Error()
